@@ -7,7 +7,7 @@
      ShutTOs   timeouts of Shutdown's context (None: never)      PCancel   calls whose parent context may be cancelled
    Backoff table of the model: 1 before the first retry, 2..3 afterwards (a range, as the jitter makes it). *)
 EXTENDS Retry
-CONSTANTS MCCalls, MaxTime, MaxAtt, ShutTOs, PCancel, Gates, DL1, DL2s, W3, Res
+CONSTANTS MCCalls, MaxTime, MaxAtt, ShutTOs, PCancel, Gates, DL1, DL2s, W2, LB2, W3, Res
 MCConf == [lo |-> <<1, 2>>, hi |-> <<1, 3>>]
 ROk == [kind |-> "ok", txt |-> ""]
 RPerm == [kind |-> "text", txt |-> "some error"]
@@ -21,12 +21,15 @@ DL24 == {2, 4}
 DLN == {None}
 DLN3 == {None, 3}
 WT == {TRUE}
+WF == {FALSE}
+LA == {"A"}
+LAB == {"A", "B"}
 WB == BOOLEAN
 R2 == {ROk, RTemp}
 R3 == {ROk, RPerm, RTemp}
 R4 == {ROk, RPerm, RTemp, RNet}
 Attrs(c) == CASE c = 1 -> {[wrapped |-> TRUE, label |-> "A", dl |-> d, gated |-> g] : d \in DL1, g \in Gates}
-              [] c = 2 -> {[wrapped |-> TRUE, label |-> "A", dl |-> d, gated |-> FALSE] : d \in DL2s}
+              [] c = 2 -> {[wrapped |-> w, label |-> lb, dl |-> d, gated |-> FALSE] : d \in DL2s, w \in W2, lb \in LB2}
               [] OTHER -> {[wrapped |-> w, label |-> "B", dl |-> 3, gated |-> FALSE] : w \in W3}
 Results(c) == IF Len(att[c]) >= MaxAtt THEN {ROk, RPerm} ELSE Res
 Internal(c) == \/ StartAsync(c) \/ EnterFn(c) \/ Classify(c) \/ EndSync(c)
